@@ -125,11 +125,421 @@ Proof.
   assert (H : ex_gate_check = true) by (vm_compute; reflexivity).
   unfold ex_gate_check in H. cbv zeta in H.
   repeat match type of H with (_ && _ = true) => apply andb_prop in H; let Hn := fresh "B" in destruct H as [H Hn] end.
-  split; [exact (run_EInv ex_gate_prefix _ H (the_state_spec _ B))|].
-  split; [exact (is_ook_spec _ B0)|]. split; [exact (the_session_spec _ _ B1)|].
-  split; [exact (proj1 (negb_true_iff _) B2)|]. split; [exact (proj1 (negb_true_iff _) B3)|].
-  split; [exact (the_chan_spec _ _ B4)|]. split; [exact B5|]. split; [exact (bool_decide_eq_true_1 _ B6)|].
-  split; [exact (bool_decide_eq_true_1 _ B7)|]. split; [exact (is_chanop_b_false _ _ _ (proj1 (negb_true_iff _) B8))|].
-  split; [exact (the_chan_spec _ _ B9)|]. split; [exact (bool_decide_eq_true_1 _ B10)|].
-  split; [exact (is_ook_spec _ B11)|]. split; [exact (the_chan_spec _ _ B13)|exact (bool_decide_eq_true_1 _ B12)].
+  split; [unfold ex_gsv; apply (run_EInv ex_gate_prefix); [exact H|apply the_state_spec; exact B13]|].
+  split; [exact (is_ook_spec _ B12)|]. split; [exact (the_session_spec _ _ B11)|].
+  split; [exact (proj1 (negb_true_iff _) B10)|]. split; [exact (proj1 (negb_true_iff _) B9)|].
+  split; [exact (the_chan_spec _ _ B8)|]. split; [exact B7|]. split; [exact (bool_decide_eq_true_1 _ B6)|].
+  split; [exact (bool_decide_eq_true_1 _ B5)|]. split; [exact (is_chanop_b_false _ _ _ (proj1 (negb_true_iff _) B4))|].
+  split; [exact (the_chan_spec _ _ B3)|]. split; [exact (bool_decide_eq_true_1 _ B2)|].
+  split; [exact (is_ook_spec _ B1)|]. split; [exact (the_chan_spec _ _ B)|exact (bool_decide_eq_true_1 _ B0)].
+Qed.
+
+(* ===================================================================================================== *)
+(* ---- services and operator status over ALL handlers ------------------------------------------------- *)
+Section Flags.
+  (* the acting session; the configured operator credentials and services passwords (no handler changes
+     them); AO: a configured operator credential exists — the only way the acting session's operator flag
+     can be raised by the handlers that go through OPER *)
+  Variable k : N * N.
+  Variable ops0 : list (string * string).
+  Variable svc0 : list string.
+  Variable AO : Prop.
+
+  Definition CfgIs (sv : server) : Prop := g_operators (sv_config sv) = ops0 /\ g_services (sv_config sv) = svc0.
+  (* no session becomes a services link; no session becomes an operator, except the acting one if AO *)
+  Definition ff (sv sv' : server) : Prop :=
+    (forall tk s', sv_sessions sv' !! tk = Some s' -> s_server s' = true ->
+        exists s, sv_sessions sv !! tk = Some s /\ s_server s = true) /\
+    (forall tk s', sv_sessions sv' !! tk = Some s' -> s_operator s' = true ->
+        (exists s, sv_sessions sv !! tk = Some s /\ s_operator s = true) \/ (tk = k /\ AO)).
+  Lemma ff_refl sv : ff sv sv.
+  Proof. split; intros tk s' Hs' Hf; [|left]; eauto. Qed.
+  Lemma ff_trans a b c : ff a b -> ff b c -> ff a c.
+  Proof.
+    intros [H1 H2] [H3 H4]. split.
+    - intros tk s' Hs' Hf. destruct (H3 _ _ Hs' Hf) as (s1 & Hs1 & Hf1). eauto.
+    - intros tk s' Hs' Hf. destruct (H4 _ _ Hs' Hf) as [(s1 & Hs1 & Hf1)|Hx]; [eauto|now right].
+  Qed.
+
+  Definition fl_ok {A} (m : M A) : Prop :=
+    forall sv r, CfgIs sv -> pw m (fun _ sv' _ => CfgIs sv' /\ ff sv sv') sv r.
+
+  Lemma fl_ret {A} (a : A) : fl_ok (retM a).
+  Proof. intros sv r H. split; [exact H|apply ff_refl]. Qed.
+  Lemma fl_bind {A B} (m : M A) (f : A -> M B) : fl_ok m -> (forall a, fl_ok (f a)) -> fl_ok (bindM m f).
+  Proof.
+    intros Hm Hf sv r HC. apply pw_bind. eapply pw_mono; [apply Hm, HC|]. intros a sv1 r1 [HC1 F1]. cbv beta.
+    eapply pw_mono; [apply Hf, HC1|]. intros b sv2 r2 [HC2 F2]. split; [exact HC2|eapply ff_trans; eauto].
+  Qed.
+  Lemma fl_panic {A} s : fl_ok (@panicM A s). Proof. intros sv r H. exact Logic.I. Qed.
+  Lemma fl_gap {A} s : fl_ok (@gapM A s). Proof. intros sv r H. exact Logic.I. Qed.
+  Lemma fl_getS : fl_ok getS. Proof. intros sv r H. split; [exact H|apply ff_refl]. Qed.
+  Lemma fl_modS f : (forall sv, CfgIs sv -> CfgIs (f sv) /\ ff sv (f sv)) -> fl_ok (modS f).
+  Proof. intros Hf sv r H. apply Hf, H. Qed.
+  Lemma fl_liftR {A} (x : res A) : fl_ok (liftR x).
+  Proof. intros sv r H. unfold pw, liftR. destruct x; [split; [exact H|apply ff_refl]|exact Logic.I|exact Logic.I]. Qed.
+  Lemma fl_replyCount : fl_ok replyCount. Proof. intros sv r H. split; [exact H|apply ff_refl]. Qed.
+  Lemma fl_emit rc m : fl_ok (emit rc m). Proof. intros sv r H. split; [exact H|apply ff_refl]. Qed.
+  Lemma fl_whenM b m : fl_ok m -> fl_ok (whenM b m).
+  Proof. intros Hm. destruct b; [exact Hm|apply fl_ret]. Qed.
+  Lemma fl_forM {A} (l : list A) (f : A -> M unit) : (forall x, fl_ok (f x)) -> fl_ok (forM l f).
+  Proof. intros Hf. induction l as [|x l IH]; cbn [forM]; [apply fl_ret|]. apply fl_bind; [apply Hf|intros _; exact IH]. Qed.
+
+  (* state changes that keep the two flags of every session *)
+  Definition keeps (f : session -> session) : Prop := forall s, s_server (f s) = s_server s /\ s_operator (f s) = s_operator s.
+  Lemma ff_upd tk f sv :
+    keeps f -> CfgIs sv ->
+    CfgIs (set_sessions (fun m => match m !! tk with Some s => <[tk := f s]> m | None => m end) sv) /\
+    ff sv (set_sessions (fun m => match m !! tk with Some s => <[tk := f s]> m | None => m end) sv).
+  Proof.
+    intros Hf HC. split; [exact HC|]. split; intros tk' s' Hs' Hfl; cbn [sv_sessions set_sessions] in Hs'; rewrite lookup_upd_sess in Hs';
+      [|left]; (case_bool_decide as E; [|eauto]); destruct (sv_sessions sv !! tk') as [s1|] eqn:E1; try discriminate;
+      cbn in Hs'; injection Hs' as <-; destruct (Hf s1) as [F1 F2]; exists s1; split; congruence.
+  Qed.
+  Lemma ff_fmap f sv : keeps f -> CfgIs sv -> CfgIs (set_sessions (fmap f) sv) /\ ff sv (set_sessions (fmap f) sv).
+  Proof.
+    intros Hf HC. split; [exact HC|]. split; intros tk' s' Hs' Hfl; cbn [sv_sessions set_sessions] in Hs'; rewrite lookup_fmap in Hs';
+      [|left]; destruct (sv_sessions sv !! tk') as [s1|] eqn:E1; try discriminate;
+      cbn in Hs'; injection Hs' as <-; destruct (Hf s1) as [F1 F2]; exists s1; split; congruence.
+  Qed.
+  Lemma ff_insert_plain key s0 sv :
+    s_server s0 = false -> s_operator s0 = false -> CfgIs sv ->
+    CfgIs (set_sessions (<[key := s0]>) sv) /\ ff sv (set_sessions (<[key := s0]>) sv).
+  Proof.
+    intros F1 F2 HC. split; [exact HC|]. split; intros tk' s' Hs' Hfl; cbn [sv_sessions set_sessions] in Hs';
+      [|left]; (destruct (decide (key = tk')) as [<-|Hne]; [rewrite lookup_insert in Hs'; injection Hs' as <-; congruence|]);
+      rewrite lookup_insert_ne in Hs' by exact Hne; eauto.
+  Qed.
+  Lemma ff_same sv sv' :
+    sv_sessions sv' = sv_sessions sv -> g_operators (sv_config sv') = g_operators (sv_config sv) ->
+    g_services (sv_config sv') = g_services (sv_config sv) -> CfgIs sv -> CfgIs sv' /\ ff sv sv'.
+  Proof.
+    intros Hs Hc1 Hc2 [H1 H2]. split; [unfold CfgIs; rewrite Hc1, Hc2; auto|]. split; intros tk s' Hs' Hf; rewrite Hs in Hs'; [|left]; eauto.
+  Qed.
+End Flags.
+
+Ltac fl_mod :=
+  first [ apply ff_upd; [intros ?; split; reflexivity|assumption]
+        | apply ff_fmap; [intros ?; split; reflexivity|assumption]
+        | apply ff_insert_plain; [reflexivity|reflexivity|assumption]
+        | apply ff_same; [reflexivity|reflexivity|reflexivity|assumption]
+        | match goal with H : CfgIs _ _ _ |- _ => destruct H as [? ?]; split; [split; assumption|apply ff_refl] end ].
+
+Ltac fl_step :=
+  lazymatch goal with
+  | |- fl_ok _ _ _ _ (bindM _ _) => apply fl_bind; [|intros ?]
+  | |- fl_ok _ _ _ _ (retM _) => apply fl_ret
+  | |- fl_ok _ _ _ _ (panicM _) => apply fl_panic
+  | |- fl_ok _ _ _ _ (gapM _) => apply fl_gap
+  | |- fl_ok _ _ _ _ getS => apply fl_getS
+  | |- fl_ok _ _ _ _ (modS _) => apply fl_modS; intros ? ?; fl_mod
+  | |- fl_ok _ _ _ _ (liftR _) => apply fl_liftR
+  | |- fl_ok _ _ _ _ replyCount => apply fl_replyCount
+  | |- fl_ok _ _ _ _ (emit _ _) => apply fl_emit
+  | |- fl_ok _ _ _ _ (whenM _ _) => apply fl_whenM
+  | |- fl_ok _ _ _ _ (forM _ _) => apply fl_forM; intros ?
+  | |- fl_ok _ _ _ _ (if ?b then _ else _) => destruct b
+  | |- fl_ok _ _ _ _ (match ?x with _ => _ end) => destruct x eqn:?
+  | |- fl_ok _ _ _ _ (let _ := _ in _) => cbv zeta
+  end.
+
+Section FlagHandlers.
+  Variable k : N * N.
+  Variable ops0 : list (string * string).
+  Variable svc0 : list string.
+  (* the credentials the line presents: as OPER parameters or inside a stored PASS string *)
+  Variable Cred : string -> string -> Prop.
+  Definition AOp : Prop := exists name pw, In (name, pw) ops0 /\ Cred name pw.
+  Notation FL := (fl_ok k ops0 svc0 AOp).
+
+  Ltac unf := unfold reply_num, reply_svc, sessM, updSess, updChan, chanM, nickM, cfgM, param, prefix_name, msg_prefix,
+                chanop_of, captcha_url_check, add_member, leave_channel, maybe_delete_channel, drop_invites,
+                remove_nick_everywhere, rename_in_channels, change_nick, create_session.
+  Ltac go := repeat (first [ fl_step | assumption | progress unf ]).
+
+  Lemma fl_delete_session tk : FL (delete_session tk).
+  Proof. unfold delete_session. unf. go. Qed.
+  Lemma fl_verify_captcha e c : FL (verify_captcha e k c).
+  Proof. unfold verify_captcha. unf. go. Qed.
+  Lemma fl_cmd_motd m : FL (cmd_motd k m).
+  Proof. unfold cmd_motd. unf. go. Qed.
+
+  (* OPER: the one place where the operator flag is raised — for the acting session, after auth_oper *)
+  Lemma auth_oper_In g name pw : auth_oper g name pw = true -> In (name, pw) (g_operators g).
+  Proof.
+    unfold auth_oper. intros H. apply existsb_exists in H. destruct H as ([n p] & Hin & Hb). cbn in Hb.
+    apply andb_true_iff in Hb. destruct Hb as [H1 H2]. apply String.eqb_eq in H1, H2. now subst.
+  Qed.
+  Lemma fl_cmd_oper m :
+    (forall name pw, nth_error (m_params m) 0 = Some name -> nth_error (m_params m) 1 = Some pw -> Cred name pw) -> FL (cmd_oper k m).
+  Proof.
+    intros HCred sv r HC. unfold cmd_oper.
+    apply pw_bind_param. intros name Hname. apply pw_bind_param. intros pw0 Hpw. apply pw_bind_cfgM. apply pw_bind_sessM. intros s Hs.
+    destruct (auth_oper (sv_config sv) name pw0) eqn:Ha; cbn [negb].
+    - unfold updSess. apply pw_bind_modS.
+      match goal with |- pw _ _ ?st _ => set (sv1 := st) end.
+      assert (H1 : CfgIs ops0 svc0 sv1 /\ ff k AOp sv sv1).
+      { split; [exact HC|]. split; intros tk s' Hs' Hf; unfold sv1 in Hs'; cbn [sv_sessions set_sessions] in Hs'; rewrite lookup_upd_sess in Hs'.
+        - case_bool_decide as E; [|eauto]. destruct E. rewrite Hs in Hs'. cbn in Hs'. injection Hs' as <-. cbn in Hf. exists s. split; [congruence|exact Hf].
+        - case_bool_decide as E; [|left; eauto]. right. split; [now symmetry|]. exists name, pw0. split; [|now apply HCred].
+          destruct HC as [HC1 _]. rewrite <- HC1. now apply auth_oper_In. }
+      apply pw_bind_sessM. intros s2 Hs2. apply pw_bind_getS. apply pw_bind_reply_num. intros r1.
+      unfold pw, emit. exact H1.
+    - apply pw_unit_r, pw_bind_reply_num. intros r1. apply pw_ret. split; [exact HC|apply ff_refl].
+  Qed.
+
+  Hypothesis Cred_pass : forall pass p name pw, parse_message ("OPER " ++ pass) = Some p ->
+      nth_error (m_params p) 0 = Some name -> nth_error (m_params p) 1 = Some pw -> Cred name pw.
+
+  Lemma fl_maybe_login e m : FL (maybe_login e k m).
+  Proof.
+    unfold maybe_login. unf. go; try apply fl_verify_captcha; try apply fl_cmd_motd.
+    all: apply fl_cmd_oper; intros name pw0 H0 H1; eapply Cred_pass; eauto.
+  Qed.
+  Lemma fl_cmd_nick e m : FL (cmd_nick e k m).
+  Proof. unfold cmd_nick. unf. go; try apply fl_maybe_login. Qed.
+  Lemma fl_cmd_user e m : FL (cmd_user e k m).
+  Proof. unfold cmd_user. unf. go; try apply fl_maybe_login. Qed.
+  Lemma fl_cmd_pass e m : FL (cmd_pass e k m).
+  Proof. unfold cmd_pass. unf. go; try apply fl_maybe_login. Qed.
+  Lemma fl_mode_step kk lc ch op md q : FL (cmd_mode_chan_step kk lc ch op md q).
+  Proof. unfold cmd_mode_chan_step. unf. go. Qed.
+  Lemma fl_mode_loop kk lc ch op mds q : FL (cmd_mode_chan_loop kk lc ch op mds q).
+  Proof.
+    revert q. induction mds as [|md mds IH]; intros q; cbn [cmd_mode_chan_loop]; [apply fl_ret|].
+    apply fl_bind; [apply fl_mode_step|]. intros st. destruct (fst st); [apply fl_ret|apply IH].
+  Qed.
+  Lemma fl_cmd_mode kk m : FL (cmd_mode kk m).
+  Proof. unfold cmd_mode. unf. go; try apply fl_mode_loop. Qed.
+  Lemma fl_cmd_topic kk m : FL (cmd_topic kk m).
+  Proof. unfold cmd_topic. unf. go. Qed.
+  Lemma fl_cmd_names kk m : FL (cmd_names kk m).
+  Proof. unfold cmd_names. unf. go. Qed.
+  Lemma fl_join_one e ch key : FL (join_one e k ch key).
+  Proof. unfold join_one. unf. go; try apply fl_verify_captcha; try apply fl_cmd_mode; try apply fl_cmd_topic; try apply fl_cmd_names. Qed.
+  Lemma fl_cmd_join e m : FL (cmd_join e k m).
+  Proof. unfold cmd_join. unf. go; try apply fl_join_one. Qed.
+  Lemma fl_cmd_part m : FL (cmd_part k m).
+  Proof. unfold cmd_part. unf. go. Qed.
+  Lemma fl_cmd_kick m : FL (cmd_kick k m).
+  Proof. unfold cmd_kick. unf. go. Qed.
+  Lemma fl_cmd_invite m : FL (cmd_invite k m).
+  Proof. unfold cmd_invite. unf. go. Qed.
+  Lemma fl_cmd_privmsg m : FL (cmd_privmsg k m).
+  Proof. unfold cmd_privmsg. unf. go. Qed.
+  Lemma fl_cmd_service_alias m : FL (cmd_service_alias k m).
+  Proof. unfold cmd_service_alias. unf. go; try apply fl_cmd_privmsg. Qed.
+  Lemma fl_cmd_who m : FL (cmd_who k m).
+  Proof. unfold cmd_who. unf. go. Qed.
+  Lemma fl_cmd_whois m : FL (cmd_whois k m).
+  Proof. unfold cmd_whois. unf. go. Qed.
+  Lemma fl_cmd_list m : FL (cmd_list k m).
+  Proof. unfold cmd_list. unf. go. Qed.
+  Lemma fl_cmd_away m : FL (cmd_away k m).
+  Proof. unfold cmd_away. unf. go. Qed.
+  Lemma fl_cmd_ison m : FL (cmd_ison k m).
+  Proof. unfold cmd_ison. unf. go. Qed.
+  Lemma fl_cmd_userhost m : FL (cmd_userhost k m).
+  Proof. unfold cmd_userhost. unf. go. Qed.
+  Lemma fl_cmd_knock m : FL (cmd_knock k m).
+  Proof. unfold cmd_knock. unf. go. Qed.
+  Lemma fl_cmd_ping m : FL (cmd_ping k m).
+  Proof. unfold cmd_ping. unf. go. Qed.
+  Lemma fl_cmd_quit m : FL (cmd_quit k m).
+  Proof. unfold cmd_quit. unf. go; try apply fl_delete_session. Qed.
+  Lemma fl_cmd_kill m : FL (cmd_kill k m).
+  Proof. unfold cmd_kill. unf. go; try apply fl_delete_session. Qed.
+  Lemma fl_cmd_gline m : FL (cmd_gline k m).
+  Proof. unfold cmd_gline. unf. go; try apply fl_cmd_kill. Qed.
+
+  (* services handlers: none of them touches the two flags *)
+  Lemma fl_burst_one sv t : FL (burst_one sv t).
+  Proof. unfold burst_one. unf. go. Qed.
+  Lemma fl_cmd_server_nick m : FL (cmd_server_nick k m).
+  Proof. unfold cmd_server_nick. unf. go. Qed.
+  Lemma fl_quit_pseudo tk m : FL (quit_pseudo tk m).
+  Proof. unfold quit_pseudo. unf. go; try apply fl_delete_session. Qed.
+  Lemma fl_cmd_server_quit m : FL (cmd_server_quit k m).
+  Proof. unfold cmd_server_quit. unf. go; try apply fl_delete_session; try apply fl_quit_pseudo. Qed.
+  Lemma fl_cmd_server_kill m : FL (cmd_server_kill k m).
+  Proof. unfold cmd_server_kill. unf. go; try apply fl_delete_session. Qed.
+  Lemma fl_cmd_server_join m : FL (cmd_server_join k m).
+  Proof. unfold cmd_server_join. unf. go. Qed.
+  Lemma fl_cmd_server_part m : FL (cmd_server_part k m).
+  Proof. unfold cmd_server_part. unf. go. Qed.
+  Lemma fl_cmd_server_kick m : FL (cmd_server_kick k m).
+  Proof. unfold cmd_server_kick. unf. go. Qed.
+  Lemma fl_cmd_server_svsjoin m : FL (cmd_server_svsjoin k m).
+  Proof. unfold cmd_server_svsjoin. unf. go; try apply fl_cmd_topic; try apply fl_cmd_names. Qed.
+  Lemma fl_cmd_server_svspart m : FL (cmd_server_svspart k m).
+  Proof. unfold cmd_server_svspart. unf. go. Qed.
+  Lemma fl_cmd_server_svsnick m : FL (cmd_server_svsnick k m).
+  Proof. unfold cmd_server_svsnick. unf. go. Qed.
+  Lemma fl_cmd_server_mode m : FL (cmd_server_mode k m).
+  Proof. unfold cmd_server_mode. unf. go. Qed.
+  Lemma fl_cmd_server_topic m : FL (cmd_server_topic k m).
+  Proof. unfold cmd_server_topic. unf. go. Qed.
+  Lemma fl_cmd_server_invite m : FL (cmd_server_invite k m).
+  Proof. unfold cmd_server_invite. unf. go. Qed.
+  Lemma fl_cmd_server_privmsg m : FL (cmd_server_privmsg k m).
+  Proof. unfold cmd_server_privmsg. unf. go. Qed.
+  Lemma fl_cmd_server_svshold m : FL (cmd_server_svshold k m).
+  Proof. unfold cmd_server_svshold. unf. go. Qed.
+  Lemma fl_cmd_server_svsmode m : FL (cmd_server_svsmode k m).
+  Proof. unfold cmd_server_svsmode. unf. go. Qed.
+
+  (* every entry of the command table except SERVER *)
+  Lemma fl_dispatch name minp (f : handler) e m :
+    In (name, (minp, f)) commands -> name <> "SERVER" ->
+    (name = "OPER" -> forall n pw, nth_error (m_params m) 0 = Some n -> nth_error (m_params m) 1 = Some pw -> Cred n pw) ->
+    FL (f e k m).
+  Proof.
+    intros Hin Hns HOp. unfold commands in Hin.
+    repeat (destruct Hin as [Hin|Hin]; [injection Hin as <- <- <-|]); try contradiction; try congruence; unfold noenv;
+      first [ apply fl_cmd_service_alias | apply fl_cmd_away | apply fl_cmd_gline | apply fl_cmd_invite | apply fl_cmd_ison
+            | apply fl_cmd_join | apply fl_cmd_kick | apply fl_cmd_kill | apply fl_cmd_knock | apply fl_cmd_list | apply fl_cmd_mode
+            | apply fl_cmd_motd | apply fl_cmd_names | apply fl_cmd_nick | apply fl_cmd_oper; apply HOp; reflexivity | apply fl_cmd_part | apply fl_cmd_pass
+            | apply fl_cmd_ping | apply fl_cmd_privmsg | apply fl_cmd_quit | apply fl_cmd_topic | apply fl_cmd_user
+            | apply fl_cmd_userhost | apply fl_cmd_who | apply fl_cmd_whois
+            | apply fl_cmd_server_invite | apply fl_cmd_server_join | apply fl_cmd_server_kick | apply fl_cmd_server_kill
+            | apply fl_cmd_server_mode | apply fl_cmd_server_nick | apply fl_cmd_server_part | apply fl_cmd_server_privmsg
+            | apply fl_cmd_server_quit | apply fl_cmd_server_svshold | apply fl_cmd_server_svsjoin | apply fl_cmd_server_svsmode
+            | apply fl_cmd_server_svsnick | apply fl_cmd_server_svspart | apply fl_cmd_server_topic ].
+  Qed.
+End FlagHandlers.
+
+(* ---- SERVER: the one place where the services flag is raised -------------------------------------------------- *)
+Definition services_auth (svc : list string) (s : session) : Prop :=
+  exists pw, In pw svc /\ s_pass s = "services=" ++ pw.
+
+(* what one line may do to the two flags; [s] is the acting session before the line *)
+Definition flags_grow_only_by_auth (k : N * N) (s : session) (m : imsg) (Cred : string -> string -> Prop) (sv sv' : server) : Prop :=
+  (forall tk s', sv_sessions sv' !! tk = Some s' -> s_server s' = true ->
+     (exists s0, sv_sessions sv !! tk = Some s0 /\ s_server s0 = true) \/
+     (tk = k /\ to_upper (m_cmd m) = "SERVER" /\ s_server s = false /\ services_auth (g_services (sv_config sv)) s)) /\
+  (forall tk s', sv_sessions sv' !! tk = Some s' -> s_operator s' = true ->
+     (exists s0, sv_sessions sv !! tk = Some s0 /\ s_operator s0 = true) \/
+     (tk = k /\ exists name pw, In (name, pw) (g_operators (sv_config sv)) /\ Cred name pw)).
+
+Lemma cmd_server_flags k m sv r s Cred :
+  sv_sessions sv !! k = Some s ->
+  pw (cmd_server k m)
+     (fun _ sv' _ =>
+        (forall tk s', sv_sessions sv' !! tk = Some s' -> s_server s' = true ->
+           (exists s0, sv_sessions sv !! tk = Some s0 /\ s_server s0 = true) \/
+           (tk = k /\ services_auth (g_services (sv_config sv)) s)) /\
+        (forall tk s', sv_sessions sv' !! tk = Some s' -> s_operator s' = true ->
+           exists s0, sv_sessions sv !! tk = Some s0 /\ s_operator s0 = true)) sv r.
+Proof.
+  intros Hs. unfold cmd_server. apply pw_bind_sessM. intros s1 Hs1. rewrite Hs in Hs1. injection Hs1 as <-. apply pw_bind_cfgM.
+  destruct (existsb (fun pw => String.eqb (s_pass s) ("services=" ++ pw)) (g_services (sv_config sv))) eqn:Hauth; cbn [negb].
+  - assert (HA : services_auth (g_services (sv_config sv)) s).
+    { apply existsb_exists in Hauth. destruct Hauth as (pw0 & Hin & Heq). apply String.eqb_eq in Heq. now exists pw0. }
+    apply pw_bind_param. intros p0 Hp0. unfold updSess at 1. apply pw_bind_modS.
+    match goal with |- pw ?rest _ ?st _ => set (sv1 := st); set (tail := rest) end.
+    assert (Ht : fl_ok k (g_operators (sv_config sv)) (g_services (sv_config sv)) False tail).
+    { unfold tail. repeat (first [ fl_step | assumption | progress unfold sessM, reply_num ]). apply fl_burst_one. }
+    eapply pw_mono; [apply Ht; split; reflexivity|]. intros [] sv2 r2 [_ [F1 F2]]. split.
+    + intros tk s' Hs' Hf. destruct (F1 _ _ Hs' Hf) as (s1 & Hs1 & Hf1). unfold sv1 in Hs1. cbn [sv_sessions set_sessions] in Hs1.
+      rewrite lookup_upd_sess in Hs1. case_bool_decide as E; [right; split; [now symmetry|exact HA]|left; eauto].
+    + intros tk s' Hs' Hf. destruct (F2 _ _ Hs' Hf) as [(s1 & Hs1 & Hf1)|[_ []]]. unfold sv1 in Hs1. cbn [sv_sessions set_sessions] in Hs1.
+      rewrite lookup_upd_sess in Hs1. case_bool_decide as E; [|eauto]. destruct E. rewrite Hs in Hs1. cbn in Hs1. injection Hs1 as <-.
+      cbn in Hf1. eauto.
+  - unfold pw, emit. split; intros tk s' Hs' Hf; eauto.
+Qed.
+
+(* ProcessMessage for an arbitrary session: what runs, and in which state *)
+Definition pm_outcome2 (e : env) (k : N * N) (m : imsg) (key : string) (sv1 sv' : server) : Prop :=
+  (exists r1 r2, delete_session k sv1 r1 = Ok (tt, sv', r2)) \/ sv' = sv1 \/
+  (exists minp (f : handler) r1 r2, assoc_str key commands = Some (minp, f) /\ f e k m sv1 r1 = Ok (tt, sv', r2)).
+
+Lemma pm_inv2 e k ra m sv r s :
+  sv_sessions sv !! k = Some s ->
+  pw (process_message e k ra (Some m))
+     (fun _ sv' _ => pm_outcome2 e k m ((if s_server s then "server_" else "") ++ to_upper (m_cmd m)) (view_state k ra s sv) sv') sv r.
+Proof.
+  intros Hs. unfold process_message. apply pw_bind_sessM. intros s' Hs'. rewrite Hs in Hs'. injection Hs' as <-. cbv zeta.
+  set (sv1 := view_state k ra s sv).
+  assert (Hs1 : sv_sessions sv1 !! k = Some (acting_view ra s)).
+  { unfold sv1, view_state, acting_view. destruct (_ && _); [|exact Hs]. cbn [sv_sessions set_sessions]. rewrite Hs. apply lookup_insert. }
+  apply pw_bind.
+  apply (pw_mono _ (fun banned sv2 _ => (banned = true /\ exists r1 r2, delete_session k sv1 r1 = Ok (tt, sv2, r2)) \/
+                                        (banned = false /\ sv2 = sv1))).
+  { unfold sv1, view_state. destruct (negb (is_empty ra) && negb (String.eqb ra (s_remoteAddr s))).
+    - unfold updSess. apply pw_bind_modS. apply pw_bind_cfgM.
+      match goal with |- pw _ _ ?st _ => set (sv2 := st) end.
+      destruct (g_banned (sv_config sv2) !! ra) as [reason|]; [|apply pw_ret; now right].
+      destruct (is_empty reason); [apply pw_ret; now right|].
+      apply pw_bind_emit. intros r1. apply pw_bind. eapply pw_mono; [apply pw_self|]. intros [] sv3 r3 Hdel. apply pw_ret. left.
+      split; [reflexivity|]. eauto.
+    - apply pw_ret. now right. }
+  intros banned sv2 r2 [[-> (r1 & r2' & Hdel)]|[-> ->]]; cbv beta.
+  - apply pw_ret. left. eauto.
+  - apply pw_bind_sessM. intros s1 Hs1'. rewrite Hs1 in Hs1'. injection Hs1' as <-.
+    assert (Hsrv1 : s_server (acting_view ra s) = s_server s) by (unfold acting_view; destruct (_ && _); reflexivity).
+    rewrite Hsrv1.
+    destruct (negb (s_loggedIn (acting_view ra s)) && negb (s_server s) && negb (pre_registration (to_upper (m_cmd m)))).
+    + apply pw_bind_reply_num. intros r3. destruct (_ <? _)%Z; cbn [whenM].
+      * apply pw_bind_emit. intros r4. eapply pw_mono; [apply pw_self|]. intros [] sv3 r5 Hdel. left. eauto.
+      * apply pw_ret. right. now left.
+    + destruct (assoc_str ((if s_server s then "server_" else "") ++ to_upper (m_cmd m)) commands) as [[minp f]|] eqn:Hcmd.
+      * destruct (Nat.ltb (nparams m) minp).
+        -- apply pw_unit_r, pw_bind_reply_num. intros r3. apply pw_ret. right. now left.
+        -- eapply pw_mono; [apply pw_self|]. intros [] sv3 r5 Hf. right. right. exists minp, f. eauto.
+      * apply pw_unit_r, pw_bind_reply_num. intros r3. apply pw_ret. right. now left.
+Qed.
+
+(* the credentials a line presents: as the parameters of OPER, or inside a PASS string that the login replays *)
+Definition line_cred (m : imsg) (name pw : string) : Prop :=
+  (to_upper (m_cmd m) = "OPER" /\ nth_error (m_params m) 0 = Some name /\ nth_error (m_params m) 1 = Some pw) \/
+  (exists pass p, parse_message ("OPER " ++ pass) = Some p /\ nth_error (m_params p) 0 = Some name /\ nth_error (m_params p) 1 = Some pw).
+
+Theorem line_flags e k ra m sv r sv' r' s :
+  sv_sessions sv !! k = Some s -> process_message e k ra (Some m) sv r = Ok (tt, sv', r') ->
+  flags_grow_only_by_auth k s m (line_cred m) sv sv'.
+Proof.
+  intros Hs Hpm. pose proof (pm_inv2 e k ra m sv r s Hs) as Hinv. unfold pw in Hinv. rewrite Hpm in Hinv.
+  set (sv1 := view_state k ra s sv) in *.
+  set (ops0 := g_operators (sv_config sv)). set (svc0 := g_services (sv_config sv)).
+  assert (HC1 : CfgIs ops0 svc0 sv1) by (unfold sv1, view_state; destruct (_ && _); split; reflexivity).
+  assert (Hs1 : sv_sessions sv1 !! k = Some (acting_view ra s)).
+  { unfold sv1, view_state, acting_view. destruct (_ && _); [|exact Hs]. cbn [sv_sessions set_sessions]. rewrite Hs. apply lookup_insert. }
+  (* the recorded remote address does not touch the flags *)
+  assert (H01 : forall tk s1, sv_sessions sv1 !! tk = Some s1 ->
+                  exists s0, sv_sessions sv !! tk = Some s0 /\ s_server s1 = s_server s0 /\ s_operator s1 = s_operator s0).
+  { intros tk s1. unfold sv1, view_state. destruct (_ && _); [|eauto]. cbn [sv_sessions set_sessions]. rewrite lookup_upd_sess.
+    case_bool_decide as E; [|eauto]. destruct (sv_sessions sv !! tk) as [s0|]; [|discriminate]. cbn. intros [= <-]. eauto. }
+  assert (Hstrict : ff k (AOp ops0 (line_cred m)) sv1 sv' -> flags_grow_only_by_auth k s m (line_cred m) sv sv').
+  { intros [F1 F2]. split.
+    - intros tk s' Hs' Hf. left. destruct (F1 _ _ Hs' Hf) as (s1 & Hs1' & Hf1). destruct (H01 _ _ Hs1') as (s0 & Hs0 & E1 & _).
+      exists s0. split; [exact Hs0|congruence].
+    - intros tk s' Hs' Hf. destruct (F2 _ _ Hs' Hf) as [(s1 & Hs1' & Hf1)|[-> HA]].
+      + left. destruct (H01 _ _ Hs1') as (s0 & Hs0 & _ & E2). exists s0. split; [exact Hs0|congruence].
+      + right. split; [reflexivity|exact HA]. }
+  assert (Hpass : forall pass p name pw, parse_message ("OPER " ++ pass) = Some p ->
+            nth_error (m_params p) 0 = Some name -> nth_error (m_params p) 1 = Some pw -> line_cred m name pw).
+  { intros pass p name pw0 H1 H2 H3. right. eauto. }
+  destruct Hinv as [(r1 & r2 & Hdel)|[->|(minp & f & r1 & r2 & Hcmd & Hf)]].
+  - apply Hstrict. pose proof (fl_delete_session k ops0 svc0 (line_cred m) k sv1 r1 HC1) as H. unfold pw in H. rewrite Hdel in H. apply H.
+  - apply Hstrict. apply ff_refl.
+  - destruct (String.eqb ((if s_server s then "server_" else "") ++ to_upper (m_cmd m)) "SERVER") eqn:Ename.
+    + (* SERVER *)
+      apply String.eqb_eq in Ename. destruct (s_server s) eqn:Esrv; [cbn in Ename; discriminate|].
+      change (EmptyString ++ to_upper (m_cmd m)) with (to_upper (m_cmd m)) in *. rewrite Ename in Hcmd. cbn in Hcmd. injection Hcmd as <- <-.
+      pose proof (cmd_server_flags k m sv1 r1 (acting_view ra s) (line_cred m) Hs1) as H. unfold pw, noenv in *. rewrite Hf in H.
+      destruct H as [G1 G2]. split.
+      * intros tk s' Hs' Hfl. destruct (G1 _ _ Hs' Hfl) as [(s1 & Hs1' & Hf1)|[-> HA]].
+        -- left. destruct (H01 _ _ Hs1') as (s0 & Hs0 & E1 & _). exists s0. split; [exact Hs0|congruence].
+        -- right. split; [reflexivity|]. split; [exact Ename|]. split; [reflexivity|].
+           destruct HA as (pw0 & Hin & Hp). exists pw0. split.
+           ++ destruct HC1 as [_ HC1]. fold svc0. rewrite <- HC1. exact Hin.
+           ++ rewrite <- Hp. unfold acting_view. destruct (_ && _); reflexivity.
+      * intros tk s' Hs' Hfl. left. destruct (G2 _ _ Hs' Hfl) as (s1 & Hs1' & Hf1).
+        destruct (H01 _ _ Hs1') as (s0 & Hs0 & _ & E2). exists s0. split; [exact Hs0|congruence].
+    + apply String.eqb_neq in Ename. apply Hstrict.
+      pose proof (fl_dispatch k ops0 svc0 (line_cred m) Hpass _ minp f e m (assoc_str_In _ _ _ Hcmd) Ename) as H.
+      assert (HOp : (if s_server s then "server_" else "") ++ to_upper (m_cmd m) = "OPER" ->
+                    forall n pw0, nth_error (m_params m) 0 = Some n -> nth_error (m_params m) 1 = Some pw0 -> line_cred m n pw0).
+      { intros En n pw0 H0 H1. left. destruct (s_server s); [cbn in En; discriminate|]. auto. }
+      specialize (H HOp sv1 r1 HC1). unfold pw in H. rewrite Hf in H. apply H.
 Qed.
